@@ -35,6 +35,25 @@ func num(n float64) any {
 }
 
 // RenderValue spells a tagged value of spec/SchemaValid.tla as a Go value for json.Marshal.
+// Symbols maps the symbolic characters of the TLA+ string domain to concrete ones; every
+// other symbol is the character itself. Each is one character (lengths count characters).
+var Symbols = map[string]string{"e": "é", "quote": `"`, "bslash": `\`, "nl": "\n", "nul": "\x00", "ls": "\u2028", "astral": "\U0001F600", "ee": "ü", "lt": "<"}
+
+// SymbolsOf is the inverse: the symbol sequence of a concrete string.
+func SymbolsOf(s string) []string {
+	out := []string{}
+	for _, r := range s {
+		c := string(r)
+		for k, v := range Symbols {
+			if v == c {
+				c = k
+			}
+		}
+		out = append(out, c)
+	}
+	return out
+}
+
 func RenderValue(v M) any {
 	switch v["t"] {
 	case "null":
@@ -47,8 +66,8 @@ func RenderValue(v M) any {
 		var b strings.Builder
 		for _, c := range v["s"].([]any) {
 			s := c.(string)
-			if s == "e" {
-				s = "é" // one character, two bytes: lengths count characters
+			if x, ok := Symbols[s]; ok {
+				s = x
 			}
 			b.WriteString(s)
 		}
@@ -428,6 +447,69 @@ func init() {
 `, pkg)
 }
 
+// AddRandom appends up to n seeded random schemas of the constructor language.
+func AddRandom(schemas []M, n int, seed uint64) []M {
+	rng := rand.New(rand.NewPCG(seed, 0xC03))
+	seen := map[string]bool{}
+	base := len(schemas)
+	for _, s := range schemas {
+		b, _ := json.Marshal(s)
+		seen[string(b)] = true
+	}
+	for k := 0; k < n*4 && len(seen) < base+n; k++ {
+		s := normalize(randSchema(rng, 2+rng.IntN(2), true))
+		b, _ := json.Marshal(s)
+		if !seen[string(b)] {
+			seen[string(b)] = true
+			schemas = append(schemas, s)
+		}
+	}
+	return schemas
+}
+
+// Pkg is one generated package holding the operations of schemas [Lo,Hi).
+type Pkg struct {
+	Name   string
+	Lo, Hi int
+}
+
+// GenPackages regenerates servers for the schemas (40 per package; a refused batch is
+// bisected so that one unsupported schema does not hide the others) and writes the
+// driver with one glue file per package.
+func GenPackages(mod *gencode.Module, schemas []M, driver string) (pkgs []Pkg, refused map[int]string, err error) {
+	refused = map[int]string{}
+	var tryGen func(lo, hi int)
+	tryGen = func(lo, hi int) {
+		name := fmt.Sprintf("v%d_%d", lo, hi)
+		opts := gencode.ServerOnly()
+		_, err := mod.Generate(name, SpecFor(schemas, lo, hi), opts)
+		if err == nil {
+			pkgs = append(pkgs, Pkg{name, lo, hi})
+			return
+		}
+		os.RemoveAll(filepath.Join(mod.Dir, name))
+		if hi-lo == 1 {
+			refused[lo] = firstLine(err.Error())
+			return
+		}
+		mid := (lo + hi) / 2
+		tryGen(lo, mid)
+		tryGen(mid, hi)
+	}
+	for lo := 0; lo < len(schemas); lo += 40 {
+		tryGen(lo, min(lo+40, len(schemas)))
+	}
+	for _, p := range pkgs {
+		if err := mod.WriteFile("drv/glue_"+p.Name+".go", []byte(glue(p.Name))); err != nil {
+			return nil, nil, err
+		}
+	}
+	if err := mod.WriteFile("drv/main.go", []byte(driver)); err != nil {
+		return nil, nil, err
+	}
+	return pkgs, refused, nil
+}
+
 // Check is the C03 entry point.
 func Check(r *core.Run) error {
 	r.SetRule("spec/SchemaValid.tla defines Valid(schema, instance) for the keyword fragment (type, properties/required, additionalProperties false|schema, items, enum, nullable, min/max incl. exclusive, multipleOf, min/maxLength, pattern, min/maxItems, uniqueItems, min/maxProperties, allOf, oneOf/anyOf, recursion) on exact values; TLC checks validator laws and non-vacuity on the whole domain. " +
@@ -450,21 +532,8 @@ func Check(r *core.Run) error {
 	if r.Thorough() {
 		nRand = 900
 	}
-	rng := rand.New(rand.NewPCG(uint64(r.Seed), 0xC03))
-	seen := map[string]bool{}
 	base := len(schemas)
-	for _, s := range schemas {
-		b, _ := json.Marshal(s)
-		seen[string(b)] = true
-	}
-	for n := 0; n < nRand*4 && len(seen) < base+nRand; n++ {
-		s := normalize(randSchema(rng, 2+rng.IntN(2), true))
-		b, _ := json.Marshal(s)
-		if !seen[string(b)] {
-			seen[string(b)] = true
-			schemas = append(schemas, s)
-		}
-	}
+	schemas = AddRandom(schemas, nRand, uint64(r.Seed))
 	r.Cov("random_schemas", len(schemas)-base)
 	r.Cov("schemas", len(schemas))
 	r.Cov("instances", len(insts))
@@ -481,34 +550,9 @@ func Check(r *core.Run) error {
 	if err != nil {
 		return err
 	}
-	// every schema gets its own package when a batch is refused, so that one unsupported
-	// schema does not hide the others
-	type pk struct {
-		name   string
-		lo, hi int
-	}
-	var pkgs []pk
-	refused := map[int]string{}
-	var tryGen func(lo, hi int)
-	tryGen = func(lo, hi int) {
-		name := fmt.Sprintf("v%d_%d", lo, hi)
-		opts := gencode.ServerOnly()
-		_, err := mod.Generate(name, SpecFor(schemas, lo, hi), opts)
-		if err == nil {
-			pkgs = append(pkgs, pk{name, lo, hi})
-			return
-		}
-		os.RemoveAll(filepath.Join(mod.Dir, name))
-		if hi-lo == 1 {
-			refused[lo] = firstLine(err.Error())
-			return
-		}
-		mid := (lo + hi) / 2
-		tryGen(lo, mid)
-		tryGen(mid, hi)
-	}
-	for lo := 0; lo < len(schemas); lo += 40 {
-		tryGen(lo, min(lo+40, len(schemas)))
+	pkgs, refused, err := GenPackages(mod, schemas, driverMain)
+	if err != nil {
+		return err
 	}
 	r.Cov("schemas_refused_by_generator", len(refused))
 	if len(refused) > 0 {
@@ -518,14 +562,6 @@ func Check(r *core.Run) error {
 			rs = append(rs, string(sb)+": "+e)
 		}
 		r.Cov("refused", rs)
-	}
-	for _, p := range pkgs {
-		if err := mod.WriteFile("drv/glue_"+p.name+".go", []byte(glue(p.name))); err != nil {
-			return err
-		}
-	}
-	if err := mod.WriteFile("drv/main.go", []byte(driverMain)); err != nil {
-		return err
 	}
 	bin, err := mod.Build("drv", "drv")
 	if err != nil {
@@ -545,7 +581,7 @@ func Check(r *core.Run) error {
 			query        bool
 		}
 		var slots []slot
-		for i := p.lo; i < p.hi; i++ {
+		for i := p.Lo; i < p.Hi; i++ {
 			for k, b := range bodies {
 				reqs = append(reqs, rq{Path: fmt.Sprintf("/s%d", i), Body: b})
 				slots = append(slots, slot{i, k, false})
@@ -562,12 +598,12 @@ func Check(r *core.Run) error {
 				}
 			}
 		}
-		out := filepath.Join(r.Scratch, p.name+".out")
-		job, _ := json.Marshal(M{"pkg": p.name, "reqs": reqs, "out": out})
-		jf := filepath.Join(r.Scratch, p.name+".job")
+		out := filepath.Join(r.Scratch, p.Name+".out")
+		job, _ := json.Marshal(M{"pkg": p.Name, "reqs": reqs, "out": out})
+		jf := filepath.Join(r.Scratch, p.Name+".job")
 		os.WriteFile(jf, job, 0o644)
 		if o, err := gencode.Run(bin, nil, jf); err != nil {
-			return fmt.Errorf("driver %s: %v\n%s", p.name, err, o)
+			return fmt.Errorf("driver %s: %v\n%s", p.Name, err, o)
 		}
 		raw, err := os.ReadFile(out)
 		if err != nil {
